@@ -233,8 +233,49 @@ Fixpoint orun (drop : bool) (pend : list (list Z)) (os : list op) : option (list
   | o :: r => match ostep drop pend o with Some p => orun drop p r | None => None end
   end.
 
+(** ** SendWrite over a multi-segment backlog with the in-loop ticker advance.
+    The scanner of SendWrite covers only the head segment.  After every successful
+    Write the 10 s ticker is polled; when it has fired ([ticks], one boolean per batch
+    of the head segment) [advanceScanner] persists the position.  If that happens right
+    after the LAST block of the head segment, segment.advanceTo reports io.EOF and
+    queueScanner.Advance trims the head.  Since the repair of finding
+    repl-ticker-advance-at-segment-end-drops-next-segment the scanner is then finished
+    (Next = false, further Advance = no-op), so the segments queued behind the head are
+    untouched; before it, the final advanceScanner() force-trimmed the NEXT segment unsent.
+    The remote accepts everything here.
+    Result: batches posted, batches still queued afterwards (flattened). *)
+Fixpoint send_ms_loop (todo : list (list Z)) (ticks : list bool) (rest : list (list (list Z)))
+         (posted : list (list Z)) : list (list Z) * list (list Z) :=
+  match todo with
+  | [] => (rev posted, concat rest)                 (* final advance: EOF, trimHead(false) / no-op *)
+  | b :: r =>
+      let fired := hd false ticks in
+      match r, rest with
+      | [], _ :: _ =>
+          (* last block of the head with segments behind it: a ticker advance trims the head
+             and finishes the scanner; otherwise the loop ends and the final advance trims *)
+          if fired then (rev (b :: posted), concat rest)
+          else send_ms_loop r (tl ticks) rest (b :: posted)
+      | _, _ => send_ms_loop r (tl ticks) rest (b :: posted)
+      end
+  end.
+Definition send_ms (segs : list (list (list Z))) (ticks : list bool) : list (list Z) * list (list Z) :=
+  match segs with
+  | [] => ([], [])
+  | [] :: _ => ([], concat segs)
+  | head :: rest => send_ms_loop head ticks rest []
+  end.
+Record mscase := { ms_segs : list (list (list Z)); ms_ticks : list bool;
+                   ms_posted : list (list Z); ms_remaining : list (list Z) }.
+(** oracle: nothing lost, nothing reordered: posted ++ still-queued = everything enqueued *)
+Definition ms_ok (c : mscase) : bool :=
+  blocks_eqb (ms_posted c ++ ms_remaining c) (concat (ms_segs c)).
+Definition ms_same (c : mscase) : bool :=
+  let '(p, r) := send_ms (ms_segs c) (ms_ticks c) in
+  blocks_eqb p (ms_posted c) && blocks_eqb r (ms_remaining c).
+
 (** ** correspondence case *)
-Record case := { c_drop : bool; c_ops : list op; c_final : list (list Z) }.
+Record case := { c_drop : bool; c_ops : list op; c_final : list (list Z); c_ms : option mscase }.
 
 Definition check (c : case) : verdict :=
   let '(st, same_ops) := run (c_drop c) {| m_q := []; m_fw := 0 |} (c_ops c) in
@@ -243,4 +284,7 @@ Definition check (c : case) : verdict :=
             | Some p => blocks_eqb p (c_final c)
             | None => false
             end in
-  judge same ok.
+  match c_ms c with
+  | None => judge same ok
+  | Some m => judge (same && ms_same m) (ok && ms_ok m)
+  end.
